@@ -68,6 +68,8 @@ def random_scenario(rng: random.Random, nsims=(2, 4), nconns=(1, 5), until=(2, 4
     for s in sims:
         if s["type"] == "event-based" and rng.random() < 0.5:
             s["initev"] = True
+        elif s["type"] == "hybrid" and rng.random() < 0.1:
+            s["initev"] = True  # set_initial_event(sid, 0) on a hybrid simulator: still exactly one step at time 0
     return S.normalize({"sims": sims, "conns": conns, "until": rng.randint(*until), "maxloop": maxloop})
 
 
